@@ -11,7 +11,7 @@ from ..core import close
 EXPLANATION = ("Composition.to_molar/to_weight and the Composition constructor are executed on symbolic p, M1, M2; "
                "round trips, fixed points, first+second=1, strict monotonicity and the ratio law are asserted on the "
                "returned terms; the real [0,1] validator forks and every leaf with p outside [0,1] must raise.")
-OUTSIDE = "floating-point rounding near the end points (claims are over the reals); no unrolling bound is involved"
+OUTSIDE = "floating-point rounding near the end points (claims are over the reals; nan / inf only as labelled concrete points); no unrolling bound is involved"
 
 
 def _mix():
@@ -58,6 +58,18 @@ def concrete(inp):
             fq = getattr(Composition(p=q, type=typ), fwd)(mix)
             if (q > p) != (fq.p > f.p):
                 bad.append("%s not increasing between %r and %r" % (fwd, p, q))
+    # one Composition object converted for two different mixtures (and again for the first): each answer belongs to its own mixture
+    mix2 = _float_mix(M2 * 1.7 + 3.0, M1 * 0.6 + 1.0)
+    for typ, fwd in (("weight", "to_molar"), ("molar", "to_weight")):
+        c = Composition(p=p, type=typ)
+        first = getattr(c, fwd)(mix).p
+        second = getattr(c, fwd)(mix2).p
+        again = getattr(c, fwd)(mix).p
+        want2 = getattr(Composition(p=p, type=typ), fwd)(mix2).p
+        if not close(second, want2, 1e-12, 1e-15):
+            bad.append("%s of the same object for a second mixture gives %r, a fresh object gives %r" % (fwd, second, want2))
+        if not close(again, first, 1e-12, 1e-15):
+            bad.append("%s repeated for the first mixture gives %r, then %r" % (fwd, first, again))
     if 0 < p < 1:
         x = Composition(p=p, type="weight").to_molar(mix)
         if not close(x.first / x.second, p / (1 - p) * M2 / M1, 1e-9):
@@ -123,6 +135,39 @@ def identities(job):
             job.vacuity["failed"].append("no returning path for %s" % fwd)
 
 
+def reuse(job):
+    """conversions are functions of (p, mixture): one Composition object converted for two mixtures, then for the first again"""
+    job.bound(conversions_per_object=3)
+    job.assume("0 <= p <= 1, four molar masses > 0")
+    p = real("p")
+    mixa = build.sym_mixture(nrtl=True)
+    mixb = build.sym_mixture(build.sym_component("3"), build.sym_component("4"), nrtl=True, name="symmix2")
+    Ma = (mixa.first_component.molecular_weight, mixa.second_component.molecular_weight)
+    Mb = (mixb.first_component.molecular_weight, mixb.second_component.molecular_weight)
+    dom = [p.t >= 0, p.t <= 1] + [m.t > 0 for m in Ma + Mb]
+    inputs = {"p": p.t, "M1": Ma[0].t, "M2": Ma[1].t}
+    R = "vf.props.C15:concrete"
+    for typ, fwd, oracle in (("weight", "to_molar", build.x_of_w), ("molar", "to_weight", build.w_of_x)):
+        def run(typ=typ, fwd=fwd):
+            c = Composition(p=p, type=typ)
+            return getattr(c, fwd)(mixa), getattr(c, fwd)(mixb), getattr(c, fwd)(mixa), c
+
+        n = 0
+        for leaf in job.explore(run, dom):
+            tag = "C15/reuse/%s" % fwd
+            if leaf.kind != "returned":
+                job.prove(tag + "/no_raise", dom + leaf.pc, z3.BoolVal(True), R, inputs)
+                continue
+            n += 1
+            a, b, a2, c = leaf.value
+            cs = dom + leaf.conds()
+            job.prove(tag + "/second_mixture_gets_its_own_answer", cs, lift(b.p) != oracle(p, *Mb), R, inputs, fallback=[{"p": 0.3, "M1": 18.0, "M2": 46.0}])
+            job.prove(tag + "/first_mixture_again", cs, z3.Or(lift(a.p) != oracle(p, *Ma), lift(a2.p) != oracle(p, *Ma)), R, inputs, fallback=[{"p": 0.3, "M1": 18.0, "M2": 46.0}])
+            job.prove(tag + "/object_unchanged", cs, lift(c.p) != p.t, R, inputs)
+        if n == 0:
+            job.vacuity["failed"].append("no returning path for reuse/%s" % fwd)
+
+
 def rejection(job):
     """constructor with p outside [0,1]: every leaf raises ValueError; twin: inside, a leaf returns"""
     job.bound(constructor="single call")
@@ -141,10 +186,24 @@ def rejection(job):
                               "vf.props.C15:concrete_reject", inputs)
             if n == 0:
                 job.vacuity["failed"].append("no path for %s/%s" % (typ, side))
+        job.refute_concretely("C15/reject/%s/non_finite" % typ, "vf.props.C15:concrete_nonfinite", {"type": typ})
         ret = [l for l in job.explore(lambda: Composition(p=p, type=typ), [p.t >= 0, p.t <= 1]) if l.kind == "returned"]
         job.vacuity["checked"] += 1
         if not ret:
             job.vacuity["failed"].append("valid composition rejected (%s)" % typ)
+
+
+def concrete_nonfinite(inp):
+    """nan / inf are not in [0, 1]: labelled concrete points (non-finite floats have no counterpart in real arithmetic)"""
+    bad = []
+    for v in (float("nan"), float("inf"), float("-inf")):
+        for typ in ("weight", "molar"):
+            try:
+                Composition(p=v, type=typ)
+                bad.append("Composition(p=%r, %s) was accepted" % (v, typ))
+            except ValueError:
+                pass
+    return {"ok": not bad, "detail": "; ".join(bad), "inputs": inp}
 
 
 def concrete_reject(inp):
@@ -203,7 +262,7 @@ def crosshair(job):
 
 
 def jobs(tier):
-    js = [("identities", "identities", {}), ("rejection", "rejection", {})]
+    js = [("identities", "identities", {}), ("rejection", "rejection", {}), ("reuse", "reuse", {})]
     if tier == "thorough":
         js.append(("crosshair", "crosshair", {}))
     return js
